@@ -9,7 +9,7 @@ FAMILIES = {
 PROPS = {
     "C07": dict(
         family="search",
-        theorems=T("C07", "case_fold_is_model", "find_eq_spec", "find_eq_findRef", "find_last_eq_spec", "find_last_eq_findLastRef", "find_all_eq_spec",
+        theorems=T("C07", "case_fold_is_model", "translated_compare_ci_is_model", "find_eq_spec", "find_eq_findRef", "find_last_eq_spec", "find_last_eq_findLastRef", "find_all_eq_spec",
                    "find_last_all_eq_spec", "find_last_limit_beyond_end", "contains_iff", "starts_with_iff", "ends_with_iff",
                    "affix_empty_trivial", "ci_eq_cs_on_fold", "fold_only_ascii_upper", "needle_forms_agree",
                    "needle_forms_agree_instances", "affix_forms_agree"),
@@ -27,7 +27,7 @@ PROPS = {
 
 PROPS["C06"] = dict(
     family="compare",
-    theorems=T("C06", "case_fold_is_model", "sign_compare_eq_lex", "sign_compare_eq_lex_wchar", "wchar_high_units_signed_witness", "string_compare_eq_lex",
+    theorems=T("C06", "case_fold_is_model", "translated_compare_ci_is_model", "sign_compare_eq_lex", "sign_compare_eq_lex_wchar", "wchar_high_units_signed_witness", "string_compare_eq_lex",
                "lex_is_textbook", "antisymm", "antisymm_buffer", "trans", "trans_buffer", "zero_iff_eq", "zero_iff_eq_buffer",
                "ci_zero_iff_fold_eq", "ci_preorder", "ops_agree", "operators_meaning", "compare_n_eq_take", "hash_congr", "hash_i_congr",
                "case_map_only_ascii", "reads_only_common_prefix", "huge_length_difference", "narrowed_difference_was_wrong",
